@@ -236,9 +236,18 @@ def invariant(t, seen, what, phase=0):
                 bad("sum", "sum(%s)=%r, matrix %r" % (axis, got,
                                                       want.tolist()))
 
+    def g_live():
+        # a walk that is still going on while the table answers other reads
+        try:
+            observe.check_live_iteration(t, None, what)
+        except Violation as e:
+            bad("iter", e.msg)
+
     groups = [g_counts, g_data("observation"), g_nonzero, g_data("sample"),
               g_sums, g_cells, g_iter("observation"), g_iter("sample"),
               g_nzc]
+    if phase % 2 == 0 and 0 < n * m <= 36:
+        groups.append(g_live)
     k = phase % len(groups)
     for g in groups[k:] + groups[:k]:
         g()
